@@ -30,6 +30,8 @@ Lat(name, Lx, Ly, bcx, bcy, mps, uc, cells) ==
 \* shifted periodic boundary along y: tenpy bc = ['periodic', shift]
 LatShift(l, sh) == [l EXCEPT !.shift = sh]
 ShiftSquares(types) == {LatShift(Lat("Square", 2, 2, "periodic", "periodic", "finite", <<t>>, 1), 1) : t \in types}
+\* three rings: a shift by +1 and by -1 differ (they coincide modulo 2)
+ShiftSquares3 == {LatShift(Lat("Square", 3, 2, "periodic", "periodic", "finite", <<"spin">>, 1), sh) : sh \in {1, 2}}
 Chains(Ls, types) ==
     {Lat("Chain", L, 1, bc, "open", "finite", <<t>>, 1) : L \in Ls, bc \in {"open", "periodic"}, t \in types}
 InfChains(Ls, types, cells) == {Lat("Chain", L, 1, "periodic", "open", "infinite", <<t>>, cells) : L \in Ls, t \in types}
@@ -40,19 +42,21 @@ Squares == {Lat("Square", 2, 2, bcx, bcy, "finite", <<t>>, 1) :
                bcx \in {"open", "periodic"}, bcy \in {"open", "periodic"}, t \in {"spin", "fermion"}}
 InfSquares == {Lat("Square", 1, 2, "periodic", bcy, "infinite", <<t>>, 2) : bcy \in {"open", "periodic"}, t \in {"spin", "fermion"}}
 
-LatticesMC == Chains({3}, {"spin", "fermion"}) \cup InfChains({2}, {"fermion"}, 2) \cup ShiftSquares({"spin"})
+LatticesMC == Chains({3}, {"spin", "fermion"}) \cup InfChains({2}, {"fermion"}, 2)
+              \cup ShiftSquares({"spin"})
               \cup {Lat("Chain", 2, 1, "open", "open", "finite", <<"boson4">>, 1)}
               \cup {Lat("Ladder", 2, 1, "open", "open", "finite", <<"spin", "fermion">>, 1),
                     Lat("Square", 2, 2, "open", "periodic", "finite", <<"fermion">>, 1)}
 LatticesOne == {Lat("Chain", 3, 1, "open", "open", "finite", <<"fermion">>, 1)}
 LatticesInf2 == InfChains({2}, {"fermion", "spin"}, 2) \cup InfChains({1}, {"fermion"}, 4)
 LatticesLong1 == InfChains({1}, {"spin", "fermion"}, 6)
+                 \cup {LatShift(Lat("Square", 3, 2, "periodic", "periodic", "finite", <<"spin">>, 1), 1)}
 LatticesLong2 == InfChains({2}, {"spin"}, 4)
 LatticesLong == LatticesLong1 \cup LatticesLong2
 LatticesQuick == Chains({2, 3, 4}, {"spin", "fermion", "boson1"}) \cup Chains({2, 3}, {"boson2"})
                  \cup InfChains({1}, {"spin", "fermion"}, 4) \cup InfChains({2}, {"spin", "fermion", "boson1"}, 2)
                  \cup InfChains({3}, {"fermion"}, 1)
-                 \cup Ladders \cup InfLadders \cup Squares \cup InfSquares \cup ShiftSquares({"spin", "fermion"})
+                 \cup Ladders \cup InfLadders \cup Squares \cup InfSquares \cup ShiftSquares({"spin", "fermion"}) \cup ShiftSquares3
                  \cup {Lat("Chain", 2, 1, bc, "open", "finite", <<"boson4">>, 1) : bc \in {"open", "periodic"}}
 LatticesFull == LatticesQuick \cup Chains({5}, {"spin", "fermion"}) \cup InfChains({2}, {"spin", "fermion"}, 3)
                  \cup InfChains({1}, {"boson2"}, 3)
@@ -220,12 +224,23 @@ LongPatterns(c) ==
        ELSE (IF t = "spin" THEN {<<<<"Sp", 0>>, <<"Sigmaz", 2>>, <<"Sigmaz", 5>>, <<"Sm", 6>>>>}
              ELSE {<<<<"Cd", 0>>, <<"N", 2>>, <<"N", 5>>, <<"C", 6>>>>})
 PropMultiLong ==
-    /\ Profile = "long" /\ cfg # NoCfg /\ pend = None /\ Len(decls) < MaxDecl /\ Infinite(cfg) /\ Nu(cfg) = 1
+    /\ Profile = "long" /\ cfg # NoCfg /\ pend = None /\ Len(decls) < MaxDecl /\ Infinite(cfg) /\ Nu(cfg) = 1 /\ cfg.Ly = 1
     /\ \E p \in LongPatterns(cfg), hc \in BOOLEAN, sw \in {"middle_i", "middle_op"},
           z \in {<<1, 2>>} :
          LET ops == [k \in 1..Len(p) |-> <<p[k][1], <<p[k][2], 0>>, 0>>]
          IN /\ NonEmpty(cfg, Geo(ops))
             /\ pend' = [kind |-> "multi", s |-> Scalar(z), ops |-> ops, str |-> "auto", hc |-> hc, sw |-> sw]
+            /\ UNCHANGED <<cfg, decls, H, G2, cons, last, nops, hist>>
+
+\* site-dependent couplings across a shifted periodic boundary (Profile = "long": the 3 x 2 cylinder has 64 states)
+PropShiftCoupling ==
+    /\ Profile = "long" /\ cfg # NoCfg /\ pend = None /\ Len(decls) < MaxDecl /\ cfg.shift # 0
+    /\ \E dx \in {<<0, 1>>, <<1, -1>>, <<1, 1>>}, hc \in BOOLEAN :
+         LET ops == <<<<"Sp", <<0, 0>>, 0>>, <<"Sm", dx, 0>>>>
+             g == Geo(ops)
+         IN /\ NonEmpty(cfg, g) /\ DistinctSites(cfg, g)
+            /\ pend' = CouplingDecl("coupling", [shape |-> <<ShapeX(cfg, g), ShapeY(cfg, g)>>,
+                                                 vals |-> ArrVals(ShapeX(cfg, g) * ShapeY(cfg, g))], ops, "auto", hc)
             /\ UNCHANGED <<cfg, decls, H, G2, cons, last, nops, hist>>
 
 \* decay rates lambda = lam / lamInv as <<lam, lamInv>>: real and complex (Gaussian dyadic) ones
@@ -298,7 +313,7 @@ CommitExpDecay == Commit("expdecay")
 CommitExpCenter == Commit("expcenter")
 CommitLocal == Commit("local")
 
-Next == Setup \/ PropOnsite \/ PropCoupling \/ PropCouplingStr \/ PropMulti \/ PropMultiLong \/ PropExpDecay \/ PropExpCenter \/ PropLocal
+Next == Setup \/ PropOnsite \/ PropCoupling \/ PropCouplingStr \/ PropMulti \/ PropMultiLong \/ PropShiftCoupling \/ PropExpDecay \/ PropExpCenter \/ PropLocal
         \/ CommitOnsite \/ CommitCoupling \/ CommitMulti \/ CommitExpDecay \/ CommitExpCenter \/ CommitLocal
 Spec == Init /\ [][Next]_vars
 
